@@ -151,7 +151,8 @@ func (e *lx) intended(learn func(fn string, args []string) (string, bool)) (stri
 		subst := map[string]string{}
 		ok := true
 		for i, k := range e.kids {
-			if k.kind == "dec" || k.kind == "bool" {
+			// a negative literal position counts from the end and is kept by the migration, so it is a literal too
+			if k.kind == "dec" || k.kind == "bool" || (k.kind == "neg" && k.kids[0].kind == "dec") {
 				args = append(args, k.legacy())
 				continue
 			}
@@ -206,13 +207,43 @@ func c17InferType(e *lx) string {
 	if _, err := strconv.Atoi(t); err == nil {
 		return "number"
 	}
-	if mm := c17CallRe.FindStringSubmatch(t); mm != nil {
+	if mm := c17CallRe.FindStringSubmatch(t); mm != nil && c17WholeCall(t) {
 		if c17DatePartRe.MatchString(t) {
 			return ""
 		}
 		return c17ReturnTypes[mm[1]]
 	}
 	return ""
+}
+
+// the text is one call: the parenthesis its name opens is closed by the last character (abs(1) but not abs(1) + 2)
+func c17WholeCall(t string) bool {
+	depth := 0
+	inStr := false
+	rs := []rune(t)
+	for i := 0; i < len(rs); i++ {
+		ch := rs[i]
+		if inStr {
+			if ch == '\\' {
+				i++
+			} else if ch == '"' {
+				inStr = false
+			}
+			continue
+		}
+		switch ch {
+		case '"':
+			inStr = true
+		case '(':
+			depth++
+		case ')':
+			depth--
+			if depth == 0 {
+				return i == len(rs)-1
+			}
+		}
+	}
+	return false
 }
 
 func (e *lx) dateType() string {
@@ -403,6 +434,89 @@ func (e *lx) prefix(out *[]string) {
 	}
 }
 
+var c17PathRe = regexp.MustCompile(`^[a-z_][a-z0-9_]*(\.[a-z0-9_]+)*$`)
+var c17CanonNumRe = regexp.MustCompile(`^(0|[1-9][0-9]*)(\.[0-9]*[1-9])?$`)
+
+// prefixFull writes the expression in the form the whole-visitor model reads (legmigf); false when the expression is
+// outside what that model covers (a reference that does not migrate to a dotted path, a number not written the way it
+// renders, a text literal with characters the two quotings write differently)
+func (e *lx) prefixFull(out *[]string) bool {
+	switch e.kind {
+	case "ref":
+		m := expressions.MigrateContextReference(e.text, false)
+		if !c17PathRe.MatchString(m) {
+			return false
+		}
+		parts := strings.Split(m, ".")
+		hs := make([]string, len(parts))
+		for i, p := range parts {
+			hs[i] = hx(p)
+		}
+		*out = append(*out, "path:"+strings.Join(hs, ":"))
+	case "dec":
+		if !c17CanonNumRe.MatchString(e.text) {
+			return false
+		}
+		*out = append(*out, "num:"+hx(e.text))
+	case "str":
+		for _, ch := range e.text {
+			if ch < 0x20 || ch > 0x7e || ch == '\\' {
+				return false
+			}
+		}
+		if strings.Contains(e.text, "NULL") {
+			return false
+		}
+		*out = append(*out, "str:"+hx(e.text))
+	case "bool":
+		*out = append(*out, map[string]string{"true": "T", "false": "F"}[e.text])
+	case "neg":
+		*out = append(*out, "neg")
+	case "paren":
+		*out = append(*out, "par")
+	case "bin":
+		if e.text == "+" || e.text == "-" {
+			lt, rt := c17InferType(e.kids[0]), c17InferType(e.kids[1])
+			sign := map[string]string{"+": "p", "-": "m"}[e.text]
+			switch {
+			case lt == "number" && rt == "number":
+				*out = append(*out, "bin:"+map[string]string{"+": "PLUS", "-": "MINUS"}[e.text])
+			case lt == "datetime" && rt == "number":
+				*out = append(*out, "ar:dtn:"+sign)
+			case lt == "date" && rt == "number":
+				*out = append(*out, "ar:dn1:"+sign)
+			case lt == "datetime" && rt == "time":
+				*out = append(*out, "ar:dtt:"+sign)
+			case rt == "time":
+				*out = append(*out, "ar:rt:"+sign)
+			default:
+				*out = append(*out, "ar:fb:"+sign)
+			}
+		} else {
+			*out = append(*out, "bin:"+c17OpNames[e.text])
+		}
+	default:
+		*out = append(*out, fmt.Sprintf("fn:%s:%d", hx(strings.ToLower(e.text)), len(e.kids)))
+	}
+	for i, k := range e.kids {
+		// legacy() writes the parentheses the grammar needs; they are parenthesis nodes of the legacy parse
+		min := 0
+		switch e.kind {
+		case "neg":
+			min = 13
+		case "bin":
+			min = legacyPrec[e.text] + i
+		}
+		if k.level() < min {
+			*out = append(*out, "par")
+		}
+		if !k.prefixFull(out) {
+			return false
+		}
+	}
+	return true
+}
+
 func c17Context() *types.XObject {
 	num := func(s string) types.XValue { return types.RequireXNumberFromString(s) }
 	txt := func(s string) types.XValue { return types.NewXText(s) }
@@ -554,6 +668,44 @@ func runC17(c *Ctx) {
 		}
 		c.Model("legmig", "legmig "+strings.Join(form, ","), exp, map[string]any{"legacy": legacy, "migrated": migrated})
 	}
+	// K: the whole visitor against the model (references, literals, every form of + and -, calls through the table)
+	{
+		covered, outside := 0, 0
+		kn := c.N(4000, 200000)
+		for i := 0; i < kn; i++ {
+			var e *lx
+			if i%5 == 0 {
+				// a call of a function the table does not know, or a table function around generated parameters
+				e = &lx{kind: "call", text: Pick(r, []string{"foo", "my_func", "regex_group", "percent", "rand"}), kids: []*lx{g.expr(r.Range(0, 2), '*')}}
+			} else {
+				e = g.expr(r.Range(1, 4), Pick(r, []byte{'*', 'n', 't', 'd'}))
+			}
+			var form []string
+			// a template that is one text literal is written out as that text, not as an expression
+			if e.kind == "str" || !e.prefixFull(&form) {
+				outside++
+				continue
+			}
+			covered++
+			legacy := "@(" + e.legacy() + ")"
+			migrated, err := expressions.MigrateTemplate(legacy, nil)
+			exp := "err"
+			body := ""
+			if err == nil && strings.HasPrefix(migrated, "@(") && strings.HasSuffix(migrated, ")") {
+				body = migrated[2 : len(migrated)-1]
+			} else if err == nil && strings.HasPrefix(migrated, "@") {
+				body = migrated[1:]
+			}
+			if body != "" {
+				// the by_spaces migrator writes the keyword in capitals; the model prints keywords in lower case
+				exp = "ok " + hx(strings.ReplaceAll(body, "NULL", "null"))
+			}
+			c.Eval("full|" + e.shape())
+			c.Model("legmigf", "legmigf "+strings.Join(form, ","), exp, map[string]any{"legacy": legacy, "migrated": migrated})
+		}
+		c.Dist["legmigf-covered"] = covered
+		c.Dist["legmigf-outside-model"] = outside
+	}
 	// date arithmetic in several steps first: the second step sees the migrated text of the first
 	dec := func(t string) *lx { return &lx{kind: "dec", text: t} }
 	call := func(f string, kids ...*lx) *lx { return &lx{kind: "call", text: f, kids: kids} }
@@ -563,6 +715,19 @@ func runC17(c *Ctx) {
 		bin("+", bin("+", call("now"), dec("1")), call("time", dec("2"), dec("30"), dec("0"))), bin("+", bin("+", call("today"), dec("5")), dec("3")),
 		bin("+", bin("+", call("date", dec("2020"), dec("3"), dec("15")), dec("1")), dec("2")), bin("+", call("edate", call("now"), dec("1")), dec("2")),
 		bin("-", bin("-", call("today"), dec("1")), dec("1")), call("proper", bin("+", bin("+", call("now"), dec("5")), dec("3"))),
+	}
+	// literal positions in every written form (leading zeros, eight and nine, negative), over texts long enough to tell them apart
+	{
+		str := func(t string) *lx { return &lx{kind: "str", text: t} }
+		words := "w1 w2 w3 w4 w5 w6 w7 w8 w9 w10 w11 w12 w13 w14"
+		fields := "f1,f2,f3,f4,f5,f6,f7,f8,f9,f10,f11,f12,f13,f14"
+		for _, lit := range []string{"1", "2", "7", "8", "9", "10", "12", "010", "0012", "007", "08", "09", "011", "0010"} {
+			explicit = append(explicit, call("word", str(words), dec(lit)), call("field", str(fields), dec(lit), str(",")),
+				call("word_slice", str(words), dec(lit)), call("word_slice", str(words), dec("2"), dec(lit)), call("word", str(words), dec(lit), &lx{kind: "bool", text: "true"}))
+		}
+		for _, lit := range []string{"1", "2", "10"} {
+			explicit = append(explicit, call("word", str(words), &lx{kind: "neg", kids: []*lx{dec(lit)}}), call("field", str(fields), &lx{kind: "neg", kids: []*lx{dec(lit)}}, str(",")))
+		}
 	}
 	n := c.N(5000, 250000)
 	for i := 0; i < n+len(explicit); i++ {
